@@ -2,7 +2,7 @@
 (***************************************************************************)
 (* C01: the predicate "one grandmaster and a loop-free master/slave tree"  *)
 (* over a global view g = [pst, ppi, gm, steps, so, q, segs, alive] of a   *)
-(* network (pst[n]: sequence of port states of node n; ppi[n]: parent port *)
+(* network (p2[n]: priority2 of node n; pst[n]: sequence of port states of node n; ppi[n]: parent port *)
 (* identity; gm[n]: grandmaster attributes <<p1, class, acc, var, p2, id>> *)
 (* held by node n; segs: set of segments (sets of <<node, port>>); alive:  *)
 (* set of nodes). Used on the model's states (Network) and on the logged   *)
@@ -11,7 +11,7 @@
 EXTENDS Naturals, Integers, Sequences, FiniteSets
 
 \* attributes by which the instances are ranked (Figure 34 on the own data sets)
-OwnAttrOf(g, prio, n) == <<prio[n], g.q[n].class, g.q[n].acc, g.q[n].var, 128, n>>
+OwnAttrOf(g, prio, n) == <<prio[n], g.q[n].class, g.q[n].acc, g.q[n].var, g.p2[n], n>>
 GmLessT(a, b) == \E i \in 1..6 : a[i] < b[i] /\ \A j \in 1..(i - 1) : a[j] = b[j]
 Linked(g, a, b) == \E s \in g.segs : (\E p \in s : p[1] = a) /\ (\E p \in s : p[1] = b)
 RECURSIVE Reach(_, _, _)
@@ -21,27 +21,48 @@ MasterCapable(g, n) == ~g.so[n]
 MaySlave(g, n) == g.q[n].class = 0 \/ g.q[n].class >= 128
 SegPorts(g, s) == {p \in s : p[1] \in g.alive}
 
+\* An instance with clockClass 1..127 never becomes slave (Figure 33: M1 or P1): it is passive towards a better master and the
+\* grandmaster of whatever lies behind it, and it relays nothing. A slave-only instance relays nothing either. So the master an
+\* instance n can have is the best of the master-capable instances it can reach through relays (instances that may be slave
+\* and are not slave-only); where no clockClass < 128 instance sits between others this is "the best instance of the component".
+Relay(g, n) == MaySlave(g, n) /\ ~g.so[n]
+RECURSIVE RelayReach(_, _, _, _)
+RelayReach(g, n, S, k) ==
+  IF k = 0 THEN S
+  ELSE RelayReach(g, n, S \cup {b \in g.alive : \E a \in S : (a = n \/ Relay(g, a)) /\ Linked(g, a, b)}, k - 1)
+RC(g, n, nn) == RelayReach(g, n, {n}, nn)
+BestOf(g, prio, cand) == CHOOSE x \in cand : \A y \in cand \ {x} : GmLessT(OwnAttrOf(g, prio, x), OwnAttrOf(g, prio, y))
+SlavePorts(g, n) == {i \in DOMAIN g.pst[n] : g.pst[n][i] = "S"}
+
+NodeOK(g, prio, nn, n) ==
+  LET rc == RC(g, n, nn)
+      cand == {r \in rc : MasterCapable(g, r)}
+  IN
+  IF ~MaySlave(g, n) THEN
+       \* never slave; grandmaster of what is behind its master ports (a port that is passive by P1 updates no data set, so an
+       \* instance all of whose ports are passive keeps the parent data set it had)
+       /\ SlavePorts(g, n) = {}
+       /\ (\E i \in DOMAIN g.pst[n] : g.pst[n][i] = "M") => (g.gm[n] = OwnAttrOf(g, prio, n) /\ g.steps[n] = 0)
+  ELSE IF cand = {} THEN SlavePorts(g, n) = {}
+  ELSE
+    LET b == BestOf(g, prio, cand) IN
+    IF b = n THEN g.gm[n] = OwnAttrOf(g, prio, n) /\ g.steps[n] = 0 /\ SlavePorts(g, n) = {}
+    ELSE
+      \* exactly one slave port, grandmaster b, parent a master port on the same segment, one step further from the grandmaster
+      /\ Cardinality(SlavePorts(g, n)) = 1
+      /\ g.gm[n] = OwnAttrOf(g, prio, b)
+      /\ LET sp == CHOOSE i \in SlavePorts(g, n) : TRUE
+             pp == g.ppi[n]
+         IN /\ pp[1] \in rc /\ pp[1] # n
+            /\ \E s \in g.segs : <<n, sp>> \in s /\ pp \in s
+            /\ g.pst[pp[1]][pp[2]] = "M"
+            /\ g.steps[n] = g.steps[pp[1]] + 1
+
 TreeOKOf(g, prio, nn, allports) ==
-  \A c \in {Comp(g, n, nn) : n \in g.alive} :
-    LET cap == {n \in c : MasterCapable(g, n)} IN
-    cap # {} =>
-      LET b == CHOOSE x \in cap : \A y \in cap \ {x} : GmLessT(OwnAttrOf(g, prio, x), OwnAttrOf(g, prio, y)) IN
-      \* the best master-capable instance is grandmaster
-      /\ g.gm[b] = OwnAttrOf(g, prio, b) /\ g.steps[b] = 0
-      \* every other instance that may be slave: exactly one slave port, grandmaster b, parent a master port on the
-      \* same segment, one step further from the grandmaster than its parent
-      /\ \A n \in c \ {b} : MaySlave(g, n) =>
-           /\ Cardinality({i \in DOMAIN g.pst[n] : g.pst[n][i] = "S"}) = 1
-           /\ g.gm[n] = OwnAttrOf(g, prio, b)
-           /\ LET sp == CHOOSE i \in DOMAIN g.pst[n] : g.pst[n][i] = "S"
-                  pp == g.ppi[n]
-              IN /\ pp[1] \in c /\ pp[1] # n
-                 /\ \E s \in g.segs : <<n, sp>> \in s /\ pp \in s
-                 /\ g.pst[pp[1]][pp[2]] = "M"
-                 /\ g.steps[n] = g.steps[pp[1]] + 1
-      \* every segment with a master-capable instance attached has exactly one master port
-      /\ \A s \in g.segs :
-           (SegPorts(g, s) \cap {p \in allports : p[1] \in c} # {} /\ \E p \in SegPorts(g, s) : MasterCapable(g, p[1]))
-           => Cardinality({p \in SegPorts(g, s) : g.pst[p[1]][p[2]] = "M"}) = 1
+  /\ \A n \in g.alive : NodeOK(g, prio, nn, n)
+  \* every segment with a master-capable instance attached has exactly one master port
+  /\ \A s \in g.segs :
+       (\E p \in SegPorts(g, s) : MasterCapable(g, p[1]))
+       => Cardinality({p \in SegPorts(g, s) : g.pst[p[1]][p[2]] = "M"}) = 1
 
 =============================================================================
